@@ -5,6 +5,8 @@
 //! The writer's only state is its fill level (0..=B, B observed at run time).  ALL (or, quick, the
 //! boundary-dense subset of) fill levels x a write alphabet (every integer type and every rendered
 //! length 1..=40, chars, strings around 0/45/B/2B, vectors, tuples of arity 2..8) x {flush, drop};
+//! the same writes through the public trait method `Writable::write` (pending bytes also in the
+//! flush-per-write build); the writer going out of scope by unwinding (user code panics after the writes);
 //! sink deviations (partial acceptance, Interrupted) enumerated up to two per execution; every value of
 //! the 8- and 16-bit integer types (thorough: of u32/i32) rendered and compared with `to_string()`.
 //! The same enumeration runs in a second binary built with debug assertions (flush-per-write) and both
@@ -79,6 +81,25 @@ impl IntVal {
             IntVal::U128(v) => w.write(v),
             IntVal::Isize(v) => w.write(v),
             IntVal::Usize(v) => w.write(v),
+        }
+    }
+    /// the same value through the public trait method `Writable::write(&value, &mut writer)` — what a
+    /// user-defined `Writable` impl calls for its parts; it does not go through `Writer::write`
+    fn write_via_trait(&self, w: &mut Writer) {
+        use rlib_io::Writable as W;
+        match self {
+            IntVal::I8(v) => W::write(v, w),
+            IntVal::U8(v) => W::write(v, w),
+            IntVal::I16(v) => W::write(v, w),
+            IntVal::U16(v) => W::write(v, w),
+            IntVal::I32(v) => W::write(v, w),
+            IntVal::U32(v) => W::write(v, w),
+            IntVal::I64(v) => W::write(v, w),
+            IntVal::U64(v) => W::write(v, w),
+            IntVal::I128(v) => W::write(v, w),
+            IntVal::U128(v) => W::write(v, w),
+            IntVal::Isize(v) => W::write(v, w),
+            IntVal::Usize(v) => W::write(v, w),
         }
     }
     fn read_back(&self, r: &mut Reader) -> String {
@@ -186,6 +207,56 @@ impl WAct {
     }
 }
 
+impl WAct {
+    /// the action through `Writable::write(&value, &mut writer)` (chars have no `Writable` impl and keep
+    /// `write_char`)
+    fn apply_via_trait(&self, w: &mut Writer) {
+        use rlib_io::Writable as W;
+        match self {
+            WAct::Int(v) => v.write_via_trait(w),
+            WAct::Ch(c) => w.write_char(*c as char),
+            WAct::Str(n, s) => {
+                let p = pattern(*n, *s);
+                W::write(&p.as_str(), w);
+            }
+            WAct::Owned(n, s) => W::write(&pattern(*n, *s), w),
+            WAct::VecI64(v) => W::write(v, w),
+            WAct::VecStr(ls) => {
+                let v: Vec<String> = ls.iter().enumerate().map(|(i, l)| pattern(*l, i as u8)).collect();
+                W::write(&v, w)
+            }
+            WAct::VecVec => W::write(&vec![vec![1u8, 2], vec![3, 4]], w),
+            WAct::Tup(k) => match k {
+                2 => W::write(&(T8.6, T8.7), w),
+                3 => W::write(&(T8.5, T8.6, T8.7), w),
+                4 => W::write(&(T8.4, T8.5, T8.6, T8.7), w),
+                5 => W::write(&(T8.3, T8.4, T8.5, T8.6, T8.7), w),
+                6 => W::write(&(T8.2, T8.3, T8.4, T8.5, T8.6, T8.7), w),
+                7 => W::write(&(T8.1, T8.2, T8.3, T8.4, T8.5, T8.6, T8.7), w),
+                _ => W::write(&T8, w),
+            },
+            WAct::Macro(_) => unreachable!("macro actions are applied by apply_macro"),
+        }
+    }
+}
+
+/// payload of the panic raised by the harness's "user code" while the writer is alive
+struct UserPanic;
+
+/// The writer goes out of scope by unwinding: user code that owns it panics after all its writes returned.
+/// Returns normally iff the only panic was that one.
+fn user_code_panics_owning(w: Writer) {
+    let r = std::panic::catch_unwind(std::panic::AssertUnwindSafe(move || {
+        let _alive = w;
+        std::panic::panic_any(UserPanic);
+    }));
+    match r {
+        Err(e) if e.is::<UserPanic>() => {}
+        Err(e) => std::panic::resume_unwind(e),
+        Ok(()) => unreachable!(),
+    }
+}
+
 // ---------------------------------------------------------------------------------------------
 // the environment: a Write object whose every answer is chosen by the harness
 
@@ -237,6 +308,37 @@ struct Case {
     /// true: explicit flush() then drop; false: drop only
     flush: bool,
     plan: Vec<WStep>,
+    /// the writes go through the public trait method `Writable::write(&v, &mut writer)` instead of
+    /// `Writer::write(&v)` (in flush-per-write builds the former leaves the bytes pending)
+    #[serde(default)]
+    via_trait: bool,
+    /// the writer is not dropped at the end of its scope but by unwinding: user code panics after the writes
+    #[serde(default)]
+    unwind: bool,
+}
+
+impl Case {
+    fn new(fill: usize, acts: Vec<WAct>, flush: bool, plan: Vec<WStep>) -> Case {
+        Case { fill, acts, flush, plan, via_trait: false, unwind: false }
+    }
+    fn finish_name(&self) -> &'static str {
+        match (self.flush, self.unwind) {
+            (true, false) => "flush, then drop",
+            (false, false) => "drop",
+            (true, true) => "flush, then user code panics (drop by unwinding)",
+            (false, true) => "user code panics (drop by unwinding)",
+        }
+    }
+    fn signature(&self, family: &str) -> String {
+        let mut sig = format!("{}:fill={}:acts={}:flush={}:plan={}", family, self.fill, serde_json::to_string(&self.acts).unwrap().chars().take(200).collect::<String>(), self.flush, serde_json::to_string(&self.plan).unwrap());
+        if self.via_trait {
+            sig.push_str(":via_trait");
+        }
+        if self.unwind {
+            sig.push_str(":unwind");
+        }
+        sig
+    }
 }
 
 struct Exec {
@@ -245,6 +347,8 @@ struct Exec {
     first_len: usize,
     /// sink length observed right after the explicit flush (before drop), if any
     after_flush: Option<usize>,
+    /// sink length right before the writer was dropped (by scope end or by unwinding), if it got that far
+    before_drop: Option<usize>,
 }
 
 fn run_case(c: &Case) -> Exec {
@@ -252,6 +356,7 @@ fn run_case(c: &Case) -> Exec {
     let calls = Cell::new(0);
     let first_len = Cell::new(0);
     let after_flush = Cell::new(None);
+    let before_drop = Cell::new(None);
     let r = catch(|| {
         let sink = Sink { out: &out, plan: &c.plan, next: 0, calls: &calls, first_len: &first_len };
         // ManuallyDrop: if an operation panics the writer is leaked instead of dropped, so its Drop
@@ -259,12 +364,18 @@ fn run_case(c: &Case) -> Exec {
         let mut w = std::mem::ManuallyDrop::new(Writer::new(Box::new(sink)));
         if c.fill > 0 {
             let f = filler(c.fill);
-            w.write(&f.as_str());
+            if c.via_trait {
+                rlib_io::Writable::write(&f.as_str(), &mut w);
+            } else {
+                w.write(&f.as_str());
+            }
         }
         let mut macro_acts = vec![];
         for a in &c.acts {
             if let WAct::Macro(k) = a {
                 macro_acts.push(*k);
+            } else if c.via_trait {
+                a.apply_via_trait(&mut w);
             } else {
                 a.apply(&mut w);
             }
@@ -296,7 +407,13 @@ fn run_case(c: &Case) -> Exec {
                 wr.flush();
                 after_flush.set(Some(out.borrow().len()));
             }
-            drop(std::mem::ManuallyDrop::into_inner(wr));
+            // every write has returned: only now does the writer become an ordinary owned value again
+            before_drop.set(Some(out.borrow().len()));
+            if c.unwind {
+                user_code_panics_owning(std::mem::ManuallyDrop::into_inner(wr));
+            } else {
+                drop(std::mem::ManuallyDrop::into_inner(wr));
+            }
             let _ = rd;
             return;
         }
@@ -304,9 +421,14 @@ fn run_case(c: &Case) -> Exec {
             w.flush();
             after_flush.set(Some(out.borrow().len()));
         }
-        drop(std::mem::ManuallyDrop::into_inner(w));
+        before_drop.set(Some(out.borrow().len()));
+        if c.unwind {
+            user_code_panics_owning(std::mem::ManuallyDrop::into_inner(w));
+        } else {
+            drop(std::mem::ManuallyDrop::into_inner(w));
+        }
     });
-    Exec { out: r.map(|_| out.borrow().clone()), calls: calls.get(), first_len: first_len.get(), after_flush: after_flush.get() }
+    Exec { out: r.map(|_| out.borrow().clone()), calls: calls.get(), first_len: first_len.get(), after_flush: after_flush.get(), before_drop: before_drop.get() }
 }
 
 fn expected_bytes(c: &Case) -> Vec<u8> {
@@ -490,7 +612,7 @@ fn fill_levels(b: usize, quick: bool) -> Vec<usize> {
 
 fn observe_buffer_size() -> Option<usize> {
     // one &str of 3*G bytes: the first flush hands the sink exactly one buffer-full
-    let c = Case { fill: 0, acts: vec![WAct::Str(1 << 20, 0)], flush: true, plan: vec![] };
+    let c = Case::new(0, vec![WAct::Str(1 << 20, 0)], true, vec![]);
     let ex = run_case(&c);
     // the length of the first write the sink was offered (recorded even if the execution later panics)
     if ex.first_len == 0 {
@@ -504,6 +626,8 @@ struct Tot {
     execs: u64,
     flush_triggering: u64,
     near_boundary: u64,
+    /// executions in which bytes reached the sink only through the final drop
+    delivered_by_drop: u64,
     digest: u64,
     fails: Vec<(usize, &'static str, Case, String)>,
 }
@@ -512,18 +636,31 @@ fn merge(mut a: Tot, b: Tot) -> Tot {
     a.execs += b.execs;
     a.flush_triggering += b.flush_triggering;
     a.near_boundary += b.near_boundary;
+    a.delivered_by_drop += b.delivered_by_drop;
     a.digest = a.digest.wrapping_add(b.digest);
     a.fails.extend(b.fails);
     a
 }
 
 fn run_family(name: &'static str, cases: &[Case], b: usize) -> Tot {
+    run_family_as(name, cases, b, 0, |_, c| Some(c.clone()))
+}
+
+/// One family derived from a list of base cases without materialising a second list: `variant(i, base)` is
+/// the case judged at position i (None = not part of this family).  Failures and the digest are keyed by
+/// `offset + i`, a position in the BASE list, so they line up between the two build profiles.
+fn run_family_as(name: &'static str, cases: &[Case], b: usize, offset: usize, variant: impl Fn(usize, &Case) -> Option<Case> + Sync) -> Tot {
     cases
         .par_iter()
         .enumerate()
-        .map(|(i, c)| {
+        .map(|(i, base)| {
+            let c = match variant(i, base) {
+                Some(c) => c,
+                None => return Tot::default(),
+            };
+            let i = offset + i;
             let mut t = Tot { execs: 1, ..Default::default() };
-            match judge(c) {
+            match judge(&c) {
                 Ok(ex) => {
                     if ex.calls >= 2 {
                         t.flush_triggering = 1;
@@ -531,10 +668,13 @@ fn run_family(name: &'static str, cases: &[Case], b: usize) -> Tot {
                     if c.fill + 45 >= b && c.fill <= b {
                         t.near_boundary = 1;
                     }
+                    if matches!((&ex.out, ex.before_drop), (Ok(bytes), Some(n)) if bytes.len() > n) {
+                        t.delivered_by_drop = 1;
+                    }
                     // order-independent digest of (case index, sink bytes): equal across build profiles
                     t.digest = fnv(&[&(i as u64).to_le_bytes()[..], ex.out.as_ref().unwrap()].concat());
                 }
-                Err(m) => t.fails.push((i, name, c.clone(), m)),
+                Err(m) => t.fails.push((i, name, c, m)),
             }
             t
         })
@@ -680,6 +820,32 @@ fn confirm(v: &Value) -> Result<(), String> {
     judge(&c).map(|_| ())
 }
 
+/// the flush-per-write (debug assertions) build of this engine, next to the release one
+fn dbg_binary_path() -> Option<std::path::PathBuf> {
+    let exe = std::env::current_exe().ok()?;
+    let dbg = std::path::PathBuf::from(exe.to_string_lossy().replace("/release/", "/dbg/"));
+    if dbg.exists() && dbg != exe {
+        Some(dbg)
+    } else {
+        None
+    }
+}
+
+/// `confirm`, with a case found by the debug-assertions pass re-run in that build (also under `--replay`)
+fn confirm_routed(v: &Value) -> Result<(), String> {
+    if v["kind"] == "dbg_case" && !cfg!(debug_assertions) {
+        let dbg = dbg_binary_path().ok_or("the debug-assertions build of this engine does not exist")?;
+        let o = std::process::Command::new(&dbg).args(["C09", "quick", "--one-case", &v["case"].to_string()]).output().map_err(|e| e.to_string())?;
+        let s = String::from_utf8_lossy(&o.stdout).trim().to_string();
+        if !o.status.success() {
+            // e.g. a second panic inside a drop that ran while unwinding aborts that process
+            return Err(format!("the re-execution in the debug-assertions build ended with {:?} {}", o.status, s));
+        }
+        return if s == "OK" { Ok(()) } else { Err(s) };
+    }
+    confirm(v)
+}
+
 struct PassOut {
     b: usize,
     families: Vec<(&'static str, Tot, usize)>,
@@ -706,12 +872,43 @@ fn the_pass(quick: bool, with_rendering_thorough: bool) -> Result<PassOut, Strin
                 continue;
             }
             for flush in [true, false] {
-                cases.push(Case { fill: f, acts: vec![a.clone()], flush, plan: vec![] });
+                cases.push(Case::new(f, vec![a.clone()], flush, vec![]));
             }
         }
     }
     let n = cases.len();
-    families.push(("single_write", run_family("single_write", &cases, b), n));
+    let single = run_family("single_write", &cases, b);
+
+    // family 1t: the same writes through the public trait method `Writable::write(&v, &mut writer)`, then drop.
+    // In the flush-per-write build these calls leave their bytes pending, so there too the writer reaches a
+    // non-zero fill level and its drop has something to deliver.
+    // The two derived families run at the boundary-dense fill levels of the quick tier in BOTH tiers (what a
+    // drop delivers depends on the fill level only through the bytes pending; thorough's 65 537 levels are
+    // spent on family 1).
+    let derived_fills: std::collections::HashSet<usize> = fill_levels(b, true).into_iter().collect();
+    let trait_variant = |c: &Case| -> Option<Case> {
+        if c.flush || matches!(c.acts[0], WAct::Macro(_)) || !derived_fills.contains(&c.fill) {
+            return None;
+        }
+        Some(Case { via_trait: true, ..c.clone() })
+    };
+    let via_trait = run_family_as("trait_calls", &cases, b, 0, |_, c| trait_variant(c));
+
+    // family 1u: the writer goes out of scope by unwinding.  For every (fill level, write action) whose
+    // ordinary drop delivered the right bytes in this build (so that the same drop, run while unwinding,
+    // cannot panic a second time and abort the process): user code panics after the writes while the writer
+    // is alive; afterwards the sink must hold exactly the bytes written.  Both call styles.
+    let failed = |t: &Tot| -> std::collections::HashSet<usize> { t.fails.iter().map(|f| f.0).collect() };
+    let (single_failed, trait_failed) = (failed(&single), failed(&via_trait));
+    let unwound = merge(
+        run_family_as("drop_by_unwinding", &cases, b, 0, |i, c| if c.flush || single_failed.contains(&i) || !derived_fills.contains(&c.fill) { None } else { Some(Case { unwind: true, ..c.clone() }) }),
+        run_family_as("drop_by_unwinding", &cases, b, n, |i, c| if trait_failed.contains(&i) { None } else { trait_variant(c).map(|c| Case { unwind: true, ..c }) }),
+    );
+    families.push(("single_write", single, n));
+    let executed = via_trait.execs as usize;
+    families.push(("trait_calls", via_trait, executed));
+    let executed = unwound.execs as usize;
+    families.push(("drop_by_unwinding", unwound, executed));
 
     // family 2: two writes after the fill (a flush between them must not repeat or lose anything)
     let short_acts: Vec<WAct> = acts.iter().filter(|a| !matches!(a, WAct::Str(n, _) | WAct::Owned(n, _) if *n > 64) && !matches!(a, WAct::VecI64(v) if v.len() > 64) && !matches!(a, WAct::VecStr(v) if v.len() > 64)).cloned().collect();
@@ -723,7 +920,7 @@ fn the_pass(quick: bool, with_rendering_thorough: bool) -> Result<PassOut, Strin
                 if matches!(a, WAct::Macro(_)) {
                     continue;
                 }
-                cases.push(Case { fill: f, acts: vec![(*a).clone(), c.clone()], flush: f % 2 == 0, plan: vec![] });
+                cases.push(Case::new(f, vec![(*a).clone(), c.clone()], f % 2 == 0, vec![]));
             }
         }
     }
@@ -747,7 +944,7 @@ fn the_pass(quick: bool, with_rendering_thorough: bool) -> Result<PassOut, Strin
     for &f in &fault_fills {
         for a in short_acts.iter().step_by(9).chain(acts.iter().filter(|a| matches!(a, WAct::Str(n, _) if *n >= b - 1))) {
             for p in &plans {
-                cases.push(Case { fill: f, acts: vec![a.clone()], flush: f % 2 == 1, plan: p.clone() });
+                cases.push(Case::new(f, vec![a.clone()], f % 2 == 1, p.clone()));
             }
         }
     }
@@ -762,7 +959,7 @@ fn main() {
     let args = Args::parse();
     quiet_panics();
     if args.replay.is_some() {
-        Run::replay_main(&args, &confirm);
+        Run::replay_main(&args, &confirm_routed);
     }
     let quick = args.tier == Tier::Quick;
     let debug_build = cfg!(debug_assertions);
@@ -776,7 +973,7 @@ fn main() {
                     .iter()
                     .map(|(name, t, n)| {
                         let first = t.fails.iter().min_by_key(|f| f.0).map(|(_, _, c, m)| json!({"case": c, "message": m}));
-                        json!({"name": name, "cases": n, "execs": t.execs, "digest": t.digest, "fails": t.fails.len(), "first_fail": first})
+                        json!({"name": name, "cases": n, "execs": t.execs, "digest": t.digest, "delivered_by_drop": t.delivered_by_drop, "fails": t.fails.len(), "first_fail": first})
                     })
                     .collect();
                 json!({"ok": true, "debug_assertions": debug_build, "buffer": p.b, "families": fams, "rendered": p.rendered,
@@ -812,10 +1009,10 @@ fn main() {
         execs += t.execs;
         flushers += t.flush_triggering;
         near += t.near_boundary;
-        fam_json.push(json!({"family": name, "cases": n, "failing": t.fails.len(), "executions_with_more_than_one_sink_write": t.flush_triggering, "writes_starting_within_45_bytes_of_the_boundary": t.near_boundary}));
+        fam_json.push(json!({"family": name, "cases": n, "failing": t.fails.len(), "executions_with_more_than_one_sink_write": t.flush_triggering, "writes_starting_within_45_bytes_of_the_boundary": t.near_boundary, "executions_where_the_final_drop_delivered_bytes": t.delivered_by_drop}));
         if let Some((_, fam, c, m)) = t.fails.iter().min_by_key(|f| f.0) {
-            let sig = format!("{}:fill={}:acts={}:flush={}:plan={}", fam, c.fill, serde_json::to_string(&c.acts).unwrap().chars().take(200).collect::<String>(), c.flush, serde_json::to_string(&c.plan).unwrap());
-            run.violation(Violation::new(sig, format!("[{fam}, buffered build] fill level {} then {:?}, {}: {} ({} cases of this family fail)", c.fill, c.acts.iter().map(|a| format!("{:?}", a).chars().take(60).collect::<String>()).collect::<Vec<_>>(), if c.flush { "flush" } else { "drop" }, m, t.fails.len()), json!({"kind": "case", "case": c})));
+            let sig = c.signature(fam);
+            run.violation(Violation::new(sig, format!("[{fam}, buffered build] fill level {} then {:?}{}, {}: {} ({} cases of this family fail)", c.fill, c.acts.iter().map(|a| format!("{:?}", a).chars().take(60).collect::<String>()).collect::<Vec<_>>(), if c.via_trait { " through Writable::write" } else { "" }, c.finish_name(), m, t.fails.len()), json!({"kind": "case", "case": c})));
         }
     }
     for (sig, m, rep) in &p.render_fails {
@@ -823,11 +1020,10 @@ fn main() {
     }
 
     // the same enumeration in the debug-assertions build
-    let exe = std::env::current_exe().unwrap();
-    let dbg = std::path::PathBuf::from(exe.to_string_lossy().replace("/release/", "/dbg/"));
-    if !dbg.exists() || dbg == exe {
-        run.machinery_failure(&format!("the debug-assertions build {} does not exist", dbg.display()));
-    }
+    let dbg = match dbg_binary_path() {
+        Some(d) => d,
+        None => run.machinery_failure("the debug-assertions build of this engine does not exist (run ./check --setup)"),
+    };
     let o = std::process::Command::new(&dbg).args([args.prop.as_str(), args.tier.name(), "--dbg-pass"]).output();
     let child: Value = match o {
         Ok(o) if o.status.success() => serde_json::from_str(String::from_utf8_lossy(&o.stdout).lines().last().unwrap_or("")).unwrap_or(json!({"ok": false, "error": "unparseable output"})),
@@ -841,13 +1037,15 @@ fn main() {
         run.machinery_failure("the dbg binary was not built with debug assertions");
     }
     let mut dbg_execs = 0u64;
+    let mut dbg_drop_delivered: Vec<(String, u64)> = vec![];
     for (i, f) in child["families"].as_array().cloned().unwrap_or_default().iter().enumerate() {
         dbg_execs += f["execs"].as_u64().unwrap_or(0);
+        dbg_drop_delivered.push((f["name"].as_str().unwrap_or("").to_string(), f["delivered_by_drop"].as_u64().unwrap_or(0)));
         if let Some(ff) = f.get("first_fail").filter(|x| !x.is_null()) {
             let c: Case = serde_json::from_value(ff["case"].clone()).unwrap();
-            let sig = format!("dbg:{}:fill={}:acts={}:flush={}:plan={}", f["name"].as_str().unwrap_or(""), c.fill, serde_json::to_string(&c.acts).unwrap().chars().take(200).collect::<String>(), c.flush, serde_json::to_string(&c.plan).unwrap());
-            run.violation(Violation::new(sig, format!("[{}, flush-per-write (debug assertions) build] fill {} {:?}: {}", f["name"], c.fill, c.acts, ff["message"]), json!({"kind": "dbg_case", "case": c})));
-        } else if quick && p.families[i].1.fails.is_empty() && f["digest"].as_u64() != Some(p.families[i].1.digest) {
+            let sig = format!("dbg:{}", c.signature(f["name"].as_str().unwrap_or("")));
+            run.violation(Violation::new(sig, format!("[{}, flush-per-write (debug assertions) build] fill {} {:?}{}, {}: {}", f["name"].as_str().unwrap_or(""), c.fill, c.acts.iter().map(|a| format!("{:?}", a).chars().take(60).collect::<String>()).collect::<Vec<_>>(), if c.via_trait { " through Writable::write" } else { "" }, c.finish_name(), ff["message"].as_str().unwrap_or("")), json!({"kind": "dbg_case", "case": c})));
+        } else if quick && p.families[i].1.fails.is_empty() && f["cases"].as_u64() == Some(p.families[i].2 as u64) && f["digest"].as_u64() != Some(p.families[i].1.digest) {
             run.violation(Violation::new(format!("profile_digest:{}", f["name"].as_str().unwrap_or("")), format!("family {}: the bytes reaching the sink differ between the buffered and the flush-per-write build", f["name"]), json!({"kind": "profile_digest"})));
         }
     }
@@ -866,25 +1064,24 @@ fn main() {
     run.cov("integers_rendered", p.rendered);
     run.cov("write_alphabet_size", alphabet(p.b).len() as u64);
     run.cov("families", Value::Array(fam_json));
+    run.cov("debug_build_executions_where_the_final_drop_delivered_bytes", json!(dbg_drop_delivered.iter().cloned().collect::<std::collections::BTreeMap<String, u64>>()));
     run.cov("exhaustive", !quick);
-    run.cov("rule", "state = fill level of the writer's buffer when a write starts (reached by one verbatim string); transitions = executions (fill, write action(s), flush|drop, sink plan) in the buffered build plus the same enumeration in the debug-assertions build; distinct_nontrivial = executions in which the sink received more than one write (a flush happened inside the history); thorough covers ALL B+1 fill levels, quick [0,64] ∪ [B-64,B] ∪ every 1021st");
+    run.cov("rule", "state = fill level of the writer's buffer when a write starts (reached by one verbatim string); transitions = executions (fill, write action(s), flush|drop, sink plan) in the buffered build plus the same enumeration in the debug-assertions build; families: single_write (fill x alphabet x {flush, drop}), trait_calls (the same writes through the public trait method Writable::write(&v, &mut writer), which in the flush-per-write build leaves the bytes pending, then drop), drop_by_unwinding (for every (fill, action) of both call styles whose ordinary drop delivered the right bytes: user code panics after the writes while the writer is alive, so the writer is dropped by unwinding; the sink must then hold exactly the bytes written), two_writes, sink_faults; distinct_nontrivial = executions in which the sink received more than one write (a flush happened inside the history); thorough covers ALL B+1 fill levels (trait_calls and drop_by_unwinding: the quick set), quick [0,64] ∪ [B-64,B] ∪ every 1021st");
     let a = alphabet(p.b);
     for (i, act) in a.iter().enumerate().step_by((a.len() / 5).max(1)) {
-        let c = Case { fill: p.b - (i % 45), acts: vec![act.clone()], flush: i % 2 == 0, plan: vec![] };
+        let c = Case::new(p.b - (i % 45), vec![act.clone()], i % 2 == 0, vec![]);
         run.sample(json!({"fill_level": c.fill, "write": format!("{:?}", act).chars().take(80).collect::<String>(), "finish": if c.flush { "flush" } else { "drop" }, "expected_tail": String::from_utf8_lossy(&expected_bytes(&c)[c.fill..]).chars().take(60).collect::<String>()}));
     }
+    run.assume("'when the writer is dropped' (C09) is read as every drop, including the drop performed by unwinding when user code panics after its writes returned; the harness's user panic happens outside any writer call, and only for histories whose ordinary drop delivered the right bytes in the same build");
     run.assume("sinks never return Ok(0) for a non-empty buffer (std's write_all treats that as an error) and report no error other than Interrupted");
     if !run.has_violations() && (near < 1000 || flushers < 1000) {
         run.machinery_failure("too few writes started near the buffer boundary / triggered a flush");
     }
-    let confirm2 = |v: &Value| -> Result<(), String> {
-        if v["kind"] == "dbg_case" {
-            // re-run that one case in the debug build
-            let o = std::process::Command::new(&dbg).args(["C09", "quick", "--one-case", &v["case"].to_string()]).output().map_err(|e| e.to_string())?;
-            let s = String::from_utf8_lossy(&o.stdout).trim().to_string();
-            return if s == "OK" { Ok(()) } else { Err(s) };
-        }
-        confirm(v)
-    };
-    run.finish(&confirm2)
+    // non-vacuity of drop_by_unwinding: in BOTH builds the drop that ran during unwinding had bytes to deliver
+    let unwound_rel = p.families.iter().find(|f| f.0 == "drop_by_unwinding").map_or(0, |f| f.1.delivered_by_drop);
+    let unwound_dbg = dbg_drop_delivered.iter().find(|f| f.0 == "drop_by_unwinding").map_or(0, |f| f.1);
+    if !run.has_violations() && (unwound_rel < 1000 || unwound_dbg < 100) {
+        run.machinery_failure(&format!("drop_by_unwinding is vacuous: the drop during unwinding delivered bytes in {unwound_rel} executions of the buffered build and {unwound_dbg} of the flush-per-write build"));
+    }
+    run.finish(&confirm_routed)
 }
